@@ -36,6 +36,8 @@ def est_lit(c):
 
 
 def run(ctx, res):
+    from . import genarith
+    genarith.regenerate(ctx.pid, "raire", res)   # regenerated tie: bp_estimate / cp_estimate (DESIGN 2.1)
     rng = ctx.rng
     hints = (None, lambda n: list(range(n)), lambda n: list(reversed(range(n))))
     with R.untraced():
